@@ -1734,7 +1734,7 @@ static hawk_nde_t* parse_block (hawk_t* hawk, const hawk_loc_t* xloc, int istop)
 		/* skip new lines within a block */
 		while (MATCH(hawk,TOK_NEWLINE))
 		{
-			if (get_token(hawk) <= -1) return HAWK_NULL;
+			if (get_token(hawk) <= -1) goto oops_in_body;
 		}
 
 		/* if EOF is met before the right brace, this is an error */
@@ -1767,19 +1767,19 @@ static hawk_nde_t* parse_block (hawk_t* hawk, const hawk_loc_t* xloc, int istop)
 			    hawk->parse.depth.incl >=  hawk->opt.depth.s.incl)
 			{
 				hawk_seterrnum (hawk, &hawk->ptok.loc, HAWK_EINCLTD);
-				return HAWK_NULL;
+				goto oops_in_body;
 			}
 
 			once = MATCH(hawk, TOK_XINCLUDE_ONCE);
-			if (get_token(hawk) <= -1) return HAWK_NULL;
+			if (get_token(hawk) <= -1) goto oops_in_body;
 
 			if (!MATCH(hawk,TOK_STR))
 			{
 				hawk_seterrnum (hawk, &hawk->ptok.loc, HAWK_EINCLSTR);
-				return HAWK_NULL;
+				goto oops_in_body;
 			}
 
-			if (begin_include(hawk, once) <= -1) return HAWK_NULL;
+			if (begin_include(hawk, once) <= -1) goto oops_in_body;
 		}
 		else
 		{
@@ -1863,6 +1863,12 @@ static hawk_nde_t* parse_block (hawk_t* hawk, const hawk_loc_t* xloc, int istop)
 #endif
 
 	return (hawk_nde_t*)block;
+
+oops_in_body:
+	/* the statements parsed so far in this block are not attached to anything yet */
+	hawk_arr_delete (hawk->parse.lcls, nlcls_outer, HAWK_ARR_SIZE(hawk->parse.lcls) - nlcls_outer);
+	if (head) hawk_clrpt (hawk, head);
+	return HAWK_NULL;
 }
 
 static hawk_nde_t* parse_block_dc (hawk_t* hawk, const hawk_loc_t* xloc, int istop)
@@ -4938,7 +4944,7 @@ static hawk_nde_t* parse_primary_positional (hawk_t* hawk, const hawk_loc_t* xlo
 	nde->type = HAWK_NDE_POS;
 	nde->loc = *xloc;
 
-	if (get_token(hawk) <= -1) return HAWK_NULL;
+	if (get_token(hawk) <= -1) goto oops;
 
 	ploc = hawk->tok.loc;
 	nde->val = parse_primary_withdc(hawk, &ploc); /* $$$$...$0 nests as deep as the number of dollar signs */
